@@ -26,16 +26,21 @@ UNPROVED = ["backward stability of the f64/Complex<f64> instantiation of Thomas 
             "operand non-mutation / owned=borrowed product forms are run-time observations of the executor"]
 
 MANIFEST = dict(
-    text=("Theorems over an abstract ring/field, for every n >= 1 and every entry value, about the three-list Gallina model of "
-          "src/tridiagonal.rs: index is the dense twin on the three diagonals and refuses elsewhere; convert, transpose, the arithmetic "
-          "operators and the matrix-vector product (with the repaired n = 1 branch) equal the dense twin; Thomas solve is either Ok u with "
-          "dense(T)*u = r and every pivot non-zero, or Panic Guard at the first zero pivot, never anything else; det satisfies the continuant "
-          "recurrence.  The same definitions are run against the implementation for n = 1..12 over Rat (exact, panic class and refusal "
-          "message compared), f64 and Complex<f64>, and a dense Fraction reference searches for a failing input."),
-    note=("f64 accuracy on diagonally dominant systems is tied and searched, not proved; det is proved equal to the three-term continuant "
-          "recurrence (the Laplace-expansion identity continuant = determinant is standard mathematics, checked against an independent "
-          "elimination by the oracle, not re-proved with mathcomp)."),
-    technique="Coq proof over an abstract ring/field + model/implementation differential execution (vm_compute vs Rust executor)",
+    text=("Theorems for every n >= 1 and every entry value about the three-list Gallina model of src/tridiagonal.rs (any arithmetic "
+          "unless stated): constructors store well-shaped diagonals and refuse ill-shaped ones; index is the dense twin on the three "
+          "diagonals and Panic Guard elsewhere; IndexMut changes exactly the addressed entry or refuses; convert and transpose equal the "
+          "dense twin; neg/+/-/scalar*/ (ring laws) and scalar division (field laws) are the same operations on the dense twin; the "
+          "matrix-vector product with the repaired n = 1 branch is the dense twin times the vector; det equals mathcomp's \\det of the "
+          "dense twin over every field (via the continuant recurrence, which holds for any arithmetic) and the product of the Thomas "
+          "pivots; Thomas solve over an exact field is either Ok u with dense(T)*u = r and every pivot non-zero, or Panic Guard at the "
+          "first zero pivot, never anything else.  The same definitions are run against the implementation for n = 1..12 over Rat "
+          "(exact; panic class and refusal message compared), f64 and Complex<f64> (bit-compared with Coq's primitive floats), and a dense "
+          "Fraction reference searches for a failing input."),
+    note=("Proved: all of the above about the model.  Tied/searched only: that the model is the code (differential execution on every run); "
+          "backward stability of the f64/Complex<f64> instance of Thomas on diagonally dominant systems (oracle bound 1e-11 normwise) and "
+          "the accuracy of the f64 det (oracle bound 1e-11 * perm|T|); operand non-mutation and owned = borrowed operator forms (observed by "
+          "the executor).  T += s / T -= s are specified on the stored (in-band) elements."),
+    technique="Coq proof over an abstract ring/field + mathcomp bridge for det + model/implementation differential execution (vm_compute vs Rust executor)",
     design="7 (C05)")
 
 NMAX = 12
@@ -186,7 +191,7 @@ def mk(elt, kind, meta, family, nontrivial=True):
 def generate(rng, tier):
     cases = []
     thorough = (tier == "thorough")
-    rep = 8 if thorough else 2
+    rep = 6 if thorough else 2
     elts = ['rat', 'rat', 'rat', 'f64', 'cplx']
     # constructors: every n = 0..NMAX, mismatched lengths
     g = rng.fork("ctor")
